@@ -31,6 +31,7 @@ pub mod chrono {
 }
 use chrono::NaiveDate;
 
+use vstd::std_specs::cmp::PartialOrdSpec as _;
 // std range membership (no vstd spec): start <= item < end etc., through the types' partial_cmp specs
 pub open spec fn le_spec<A: PartialOrd<B>, B: ?Sized>(a: &A, b: &B) -> bool {
     a.partial_cmp_spec(b) == Some(core::cmp::Ordering::Less) || a.partial_cmp_spec(b) == Some(core::cmp::Ordering::Equal)
